@@ -69,6 +69,49 @@ def invocations : HState → List Ev → List Bool
   | _, [] => []
   | h, e :: es => let (h', b) := tickerStep h e; b :: invocations h' es
 
+/-! ## One long-lived ticker with many handlers
+
+`Ticker.handlers` is a map from a fresh id to a handler; handlers do not interact, so the ticker
+with many handlers is the product of single-handler tickers: handler `i` sees the ticks and its
+own cancellation that happen after its registration. -/
+
+inductive REv | reg | tick | cancel (i : Nat)
+deriving DecidableEq, Repr
+
+/-- the events handler number `i` (in registration order) lives through: (tick number, event). -/
+def project (i : Nat) : List REv → Nat → Nat → List (Nat × Ev)
+  | [], _, _ => []
+  | .reg :: es, nreg, tk => project i es (nreg + 1) tk
+  | .tick :: es, nreg, tk =>
+    if i < nreg then (tk + 1, Ev.tick) :: project i es nreg (tk + 1) else project i es nreg (tk + 1)
+  | .cancel j :: es, nreg, tk =>
+    if j = i ∧ i < nreg then (tk, Ev.cancel) :: project i es nreg tk else project i es nreg tk
+
+/-- tick numbers at which the handler's function runs. -/
+def invokedAt (i : Nat) (evs : List REv) : List Nat :=
+  let p := project i evs 0 0
+  ((p.map (·.1)).zip (invocations ⟨true, false⟩ (p.map (·.2)))).filterMap
+    fun (t, b) => if b then some t else none
+
+def regCount (evs : List REv) : Nat := (evs.filter (· == .reg)).length
+
+def modelReg (evs : List REv) : List (List Nat) := (List.range (regCount evs)).map (invokedAt · evs)
+
+/-- monitor, computed directly: handler `i` must run at exactly the ticks after its registration
+    and up to its first cancellation — a live handler never loses a tick, a cancelled one never
+    gets one. -/
+def windowOf (i : Nat) : List REv → Nat → Nat → Bool → List Nat
+  | [], _, _, _ => []
+  | .reg :: es, nreg, tk, dead => windowOf i es (nreg + 1) tk dead
+  | .tick :: es, nreg, tk, dead =>
+    if i < nreg && !dead then (tk + 1) :: windowOf i es nreg (tk + 1) dead
+    else windowOf i es nreg (tk + 1) dead
+  | .cancel j :: es, nreg, tk, dead => windowOf i es nreg tk (dead || (j == i && decide (i < nreg)))
+
+def holdsReg (evs : List REv) (obs : List (List Nat)) (stalled : Bool) : Bool :=
+  !stalled && obs.length == regCount evs &&
+  (obs.zipIdx).all fun (o, i) => o == windowOf i evs 0 0 false
+
 /-! ## The whole system, sequentially (what the harness drives burst by burst) -/
 
 structure Sys where
